@@ -26,6 +26,21 @@ def glue (ws : List String) : String := " ".intercalate (ws.filter (fun w => !w.
     `SetCap(math.MinInt)`) is the capacity 0 of the model (capacities are `Nat`), and `Cap()` reports 0 for it. -/
 structure DS where
   s : S
+  /-- black-box mode (`reset <cap> bb`, fed by the check when the harness had to be built without the white-box
+      overlay): the harness observes ticks through a hidden capacity-1 child of the root (model limiter 1) — per `tick`:
+      `Use(1)` twice on it, `SetCap(0)`, the tick, `SetCap(1)` — and the model performs the same calls.  Script handle
+      `k ≥ 1` is model limiter `k + 1`; the hidden limiter and its requests are not printed. -/
+  bb : Bool := false
+  hid : List Nat := []
+
+def DS.vis (d : DS) (s : S) : Nat := if d.bb then s.n - 1 else s.n
+def DS.mid (d : DS) (k : Nat) : Nat := if d.bb && k ≥ 1 then k + 1 else k
+def DS.perLim (d : DS) (s : S) (f : Nat → String) : String :=
+  ",".intercalate ((List.range (d.vis s)).map fun k => f (d.mid k))
+def DS.answers (d : DS) (s s' : S) : String :=
+  let fresh := (s'.answered.take (s'.answered.length - s.answered.length)).filter (fun a => !d.hid.contains a.1)
+  let sorted := fresh.mergeSort (fun a b => a.1 ≤ b.1)
+  " ".intercalate (sorted.map fun a => "r" ++ toString a.1 ++ "=" ++ ansStr a.2)
 
 def DS.capStr (d : DS) (l : Nat) (ap : Bool) : String := toString (capOf d.s l ap)
 
@@ -144,63 +159,74 @@ def step (st : Option DS) (line : String) : Option DS × String :=
   match words line, st with
   | ["reset", c], _ =>
     match c.toInt? with
-    | some c => (some ⟨init c.toNat⟩, "reset")
+    | some c => (some { s := init c.toNat }, "reset")
+    | none => (st, "bad-op")
+  | ["reset", c, "bb"], _ =>
+    match c.toInt? with
+    | some c => (some { s := exec (init c.toNat) (.newChild 0 1), bb := true }, "reset")
     | none => (st, "bad-op")
   | _, none => (none, "bad-op")
   | ["new", p, c], some d =>
     let s := d.s
     match p.toNat?, c.toInt? with
     | some p, some c =>
-      if p < s.n then
-        let s' := exec s (.newChild p c.toNat)
-        if s'.n = s.n then (some { d with s := s' }, "nil") else (some ⟨s'⟩, "ok " ++ toString s.n)
+      if p < d.vis s then
+        let s' := exec s (.newChild (d.mid p) c.toNat)
+        if s'.n = s.n then (some { d with s := s' }, "nil") else (some { d with s := s' }, "ok " ++ toString (d.vis s))
       else (st, "bad-handle")
     | _, _ => (st, "bad-op")
   | ["use", l, a], some d =>
     let s := d.s
     match l.toNat?, a.toInt? with
     | some l, some a =>
-      if l < s.n then
-        let s' := exec s (.use l a)
+      if l < d.vis s then
+        let s' := exec s (.use (d.mid l) a)
         let out := match s'.answered.find? (fun x => x.1 == s.nextReq) with
           | some x => ansStr x.2
           | none => "pending"
         (some { d with s := s' }, "r" ++ toString s.nextReq ++ " " ++ out)
       else (st, "bad-handle")
     | _, _ => (st, "bad-op")
-  | "window" :: _mode :: ws, some d => windowStep d ws
+  | "window" :: _mode :: ws, some d => if d.bb then (st, "window-skipped") else windowStep d ws
   | ["tick"], some d =>
     let s := d.s
     if s.tpc = .sel then
-      let s' := exec s .tick
-      (some { d with s := s' }, glue ["tick", newAnswers s s', "last=" ++ perLimiter s' (fun x => toString (s'.last x))])
+      if d.bb then
+        -- the harness' black-box observation of the tick, performed on the model as well
+        let s1 := exec (exec s (.use 1 1)) (.use 1 1)
+        let d := { d with hid := s.nextReq :: (s.nextReq + 1) :: d.hid }
+        let s2 := exec (exec (exec s1 (.setCap 1 0)) .tick) (.setCap 1 1)
+        (some { d with s := s2 }, glue ["tick", d.answers s s2, "last=" ++ d.perLim s2 (fun x => toString (s2.last x))])
+      else
+        let s' := exec s .tick
+        (some { d with s := s' }, glue ["tick", d.answers s s', "last=" ++ d.perLim s' (fun x => toString (s'.last x))])
     else (st, "no-ticker")
   | ["close", l], some d =>
     let s := d.s
     match l.toNat? with
     | some l =>
-      if l < s.n then
-        let s' := exec s (.close l)
-        (some { d with s := s' }, glue ["close", newAnswers s s',
-                        "closed=" ++ perLimiter s' (fun x => if s'.closed x then "1" else "0")])
+      if l < d.vis s then
+        let s' := exec s (.close (d.mid l))
+        (some { d with s := s' }, glue ["close", d.answers s s',
+                        "closed=" ++ d.perLim s' (fun x => if s'.closed x then "1" else "0")])
       else (st, "bad-handle")
     | none => (st, "bad-op")
   | ["cap", l, ap], some d =>
     match l.toNat? with
-    | some l => if l < d.s.n then (st, d.capStr l (ap == "1")) else (st, "bad-handle")
+    | some l => if l < d.vis d.s then (st, d.capStr (d.mid l) (ap == "1")) else (st, "bad-handle")
     | none => (st, "bad-op")
   | ["setcap", l, c], some d =>
     match l.toNat?, c.toInt? with
     | some l, some c =>
-      if l < d.s.n then (some { d with s := exec d.s (.setCap l c.toNat) }, "ok") else (st, "bad-handle")
+      if l < d.vis d.s then (some { d with s := exec d.s (.setCap (d.mid l) c.toNat) }, "ok") else (st, "bad-handle")
     | _, _ => (st, "bad-op")
   | ["last", l], some d =>
     match l.toNat? with
-    | some l => if l < d.s.n then (st, toString (d.s.last l)) else (st, "bad-handle")
+    | some l => if l < d.vis d.s then (st, toString (d.s.last (d.mid l))) else (st, "bad-handle")
     | none => (st, "bad-op")
   | ["closed", l], some d =>
     match l.toNat? with
-    | some l => if l < d.s.n then (st, toString (d.s.closed l)) else (st, "bad-handle")
+    | some l => if l < d.vis d.s then (st, toString (d.s.closed (d.mid l))) else (st, "bad-handle")
     | none => (st, "bad-op")
   | _, _ => (st, "bad-op")
 
